@@ -26,6 +26,7 @@ import (
 	"testing"
 	"time"
 
+	"github.com/emersion/go-smtp"
 	"github.com/foxcpp/maddy/framework/exterrors"
 	"github.com/foxcpp/maddy/framework/log"
 	"pgregory.net/rapid"
@@ -163,5 +164,59 @@ func TestVerifC16ClientNet(t *testing.T) {
 			Op: rapid.SampledFrom([]string{"read", "write"}).Draw(t, "op"), TLS: rapid.Bool().Draw(t, "tls")}
 	}, Run: c16sRun, Info: func(c c16sCase) ev.Info {
 		return ev.Info{Nontrivial: c.TLS, Classes: []string{"failure=" + c.Failure, fmt.Sprintf("tls=%v", c.TLS)}}
+	}})
+}
+
+// ---- the summary of per-recipient LMTP statuses --------------------------------
+//
+// Data() against an LMTP server gives one error for the whole message (used by
+// the atomic Body of target.lmtp, i.e. whenever the message came in by SMTP).
+// As for target.remote's summary (remote unit): it is a temporary failure if
+// some recipient failed temporarily, and then answered 4yz.
+
+type c16lCase struct {
+	Statuses []int `json:"statuses"` // per recipient: 0 delivered, else the reply code
+}
+
+func c16lRun(c c16lCase) (vs []ev.V) {
+	st := lmtpError{}
+	anyTemp, anyFail := false, false
+	for i, code := range c.Statuses {
+		var e *smtp.SMTPError
+		if code != 0 {
+			e = &smtp.SMTPError{Code: code, EnhancedCode: smtp.EnhancedCode{code / 100, 2, 0}, Message: "status of the recipient"}
+			anyFail = true
+			anyTemp = anyTemp || code/100 == 4
+		}
+		st.SetStatus(fmt.Sprintf("rcpt%d@example.org", i), e)
+	}
+	if !anyFail {
+		return nil
+	}
+	var err error = st // what smtpToLMTPData returns
+	temp := exterrors.IsTemporary(err)
+	code, hasCode := exterrors.Fields(err)["smtp_code"].(int)
+	desc := fmt.Sprintf("LMTP statuses %v: the summary error is temporary=%v smtp_code=%v", c.Statuses, temp, exterrors.Fields(err)["smtp_code"])
+	if temp != anyTemp {
+		vs = append(vs, ev.Vf("lmtp-summary:class-vs-statuses", "%s (a recipient failed temporarily: %v)", desc, anyTemp))
+	}
+	if hasCode && (code/100 == 4) != temp {
+		vs = append(vs, ev.Vf("lmtp-summary:code-vs-treatment", "%s", desc))
+	}
+	return vs
+}
+
+func TestVerifC16ClientLMTP(t *testing.T) {
+	r := ev.Get("C16")
+	ev.Run(t, r, ev.Spec[c16lCase]{Name: "lmtp-summary", N: r.Scale(1, 100, 100), Gen: func(t *rapid.T) c16lCase {
+		return c16lCase{Statuses: rapid.SliceOfN(rapid.SampledFrom([]int{0, 0, 451, 450, 452, 550, 554}), 1, 4).Draw(t, "statuses")}
+	}, Run: c16lRun, Info: func(c c16lCase) ev.Info {
+		fails := 0
+		for _, s := range c.Statuses {
+			if s != 0 {
+				fails++
+			}
+		}
+		return ev.Info{Nontrivial: fails >= 2, Classes: []string{fmt.Sprintf("failures=%d", fails)}}
 	}})
 }
